@@ -225,29 +225,80 @@ def property_fails_on(op, impl):
             return "topics view lists %s; the responding upstreams report %s" % (got, sorted(names))
     if kind in ("topic", "channel"):
         prods, _, _ = stage1(req, w)
-        tot = {"depth": 0, "msg": 0, "backend": 0}
+        tkeys = {"depth": 0, "backend": 2, "msg": 7, "zone": 9, "region": 10, "global": 11}
+        ckeys = dict(tkeys, inflight=3, deferred=4, requeue=5, timeout=6, clientCount=12)
+        keys = tkeys if kind == "topic" else ckeys
+        tot = dict((k, 0) for k in keys)
+        paused, clients, nreports = False, [], 0
         for p in prods:
             st = stats_of(w, p, req["a"])
             for t in st or []:
                 if t["name"] != req["a"]:
                     continue
                 if kind == "topic":
+                    nreports += 1
+                    paused = paused or t["paused"]
                     for k in tot:
                         tot[k] += t[k]
                 else:
                     for c in t["channels"]:
                         if c is not None and c["name"] == req["b"]:
+                            nreports += 1
+                            paused = paused or c["paused"]
+                            clients += ["%s~%s~%s" % (k["hostname"] or "-", k["id"] or "-", p) for k in c["clients"] if k is not None]
                             for k in tot:
                                 tot[k] += c[k]
-        m = re.match(r"T/[^/]*/([-0-9,]+)/", body) if kind == "topic" else re.match(r"C/[^/]*/[^/]*/[^/]*/([-0-9,]+)/", body)
+        m = re.match(r"T/[^/]*/([-0-9,]+)/([01]) N\[([^\]]*)\]", body) if kind == "topic" else \
+            re.match(r"C/[^/]*/[^/]*/[^/]*/([-0-9,]+)/([01])/([^/]*)/(.*)$", body)
         if not m:
             return "unreadable %s view %r" % (kind, body[:120])
         cs = [int(x) for x in m.group(1).split(",")]
-        got = {"depth": cs[0], "backend": cs[2], "msg": cs[7]}
+        got = dict((k, cs[i]) for k, i in keys.items())
         if got != tot:
-            return "%s view shows %s; the sum over the responding nodes is %s" % (kind, got, tot)
+            bad = sorted(k for k in tot if got[k] != tot[k])
+            return "%s view shows %s; the sum over the responding nodes is %s" % (
+                kind, dict((k, got[k]) for k in bad), dict((k, tot[k]) for k in bad))
         if cs[1] != cs[0] - cs[2]:
             return "%s view: memory_depth %d is not depth - backend_depth" % (kind, cs[1])
+        if cs[8] != cs[9] + cs[10] + cs[11]:
+            return "%s view: delivery_msg_count %d is not the sum of the three locality counters" % (kind, cs[8])
+        if (m.group(2) == "1") != paused:
+            return "%s view: paused=%s but the nodes report paused=%s" % (kind, m.group(2), paused)
+        nodes = [] if m.group(3 if kind == "topic" else 4) == "-" else m.group(3 if kind == "topic" else 4).split(";" if kind == "topic" else "+")
+        if len(nodes) != nreports:
+            return "%s view lists %d node report(s); the responding nodes sent %d" % (kind, len(nodes), nreports)
+        if kind == "channel":
+            include = all((not w["nsqds"][p]["filters"]) or True for p in prods if p in w["nsqds"])
+            gotc = [] if m.group(3) == "-" else m.group(3).split("+")
+            if sorted(gotc) != sorted(clients):
+                return "channel view lists clients %s; the responding nodes report %s" % (sorted(gotc), sorted(clients))
+    if kind == "counter":
+        prods, _, _ = stage1(req, w)
+        exp = {}
+        for p in prods:
+            for t in stats_of(w, p, "") or []:
+                for c in t["channels"]:
+                    if c is not None:
+                        key = "%s:%s:%s" % (t["name"], c["name"], p)
+                        exp[key] = exp.get(key, 0) + c["msg"]
+        got = {} if body == "-" else dict((kv.rsplit("=", 1)[0], int(kv.rsplit("=", 1)[1])) for kv in body.split(","))
+        if got != exp:
+            bad = sorted(k for k in set(got) | set(exp) if got.get(k) != exp.get(k))[:3]
+            return "counter view shows %s; the nodes report %s" % (dict((k, got.get(k)) for k in bad), dict((k, exp.get(k)) for k in bad))
+    if kind == "nodes" and w["lookupds"]:
+        tcps = set(p["tcp"] for l in w["lookupds"] if l["nodes"] is not None for p in l["nodes"] if p is not None)
+        m = re.match(r"P\[(.*)\]$", body)
+        entries = [] if not m or m.group(1) == "-" else m.group(1).split(";")
+        gott = [e.split("/")[2] for e in entries]
+        if sorted(gott) != sorted(tcps):
+            return "nodes view has entries for %s; the responding nsqlookupds mention %s" % (sorted(gott), sorted(tcps))
+        for e in entries:
+            f = e.split("/")
+            tcp, remotes = f[2], ("/".join(f[5:-1]))
+            n = sum(1 for l in w["lookupds"] if l["nodes"] is not None for p in l["nodes"] if p is not None and p["tcp"] == tcp)
+            have = 0 if remotes == "-" else len(remotes.split("+"))
+            if have != n:
+                return "nodes view: %s has %d remote address(es); %d answers mention it" % (tcp, have, n)
     return None
 
 
